@@ -1,0 +1,174 @@
+//! Verification event hooks for the concurrent write and read paths of the key-value store
+//! (compiled only with `--cfg blue_verif`).  Add-only: nothing here is reachable from the ordinary
+//! build, and nothing changes behaviour unless a harness starts the recorder or arms a gate.
+//!
+//! Events go to the process-wide recorder of `sync42::verif`, so they are totally ordered together
+//! with the wait-list events (`link`, `is_head`, `unlink`, `notify_head`).  An event recorded while
+//! the store mutex is held is ordered like the critical sections of that mutex; every other event
+//! is recorded right after the step it names.
+//!
+//! A *gate* makes one chosen thread block at one chosen point (always outside the store mutex)
+//! until it is released, so that a harness can force a chosen interleaving.
+
+use std::cell::Cell;
+use std::sync::atomic::{AtomicU64, Ordering};
+use std::sync::{Condvar, Mutex};
+use std::time::{Duration, Instant};
+
+use super::KeyValueStore;
+
+thread_local! {
+    static TID: Cell<u64> = const { Cell::new(u64::MAX) };
+    static YIELD_RNG: Cell<u64> = const { Cell::new(0) };
+}
+
+static YIELD_SEED: AtomicU64 = AtomicU64::new(0);
+static YIELD_PER_MILLE: AtomicU64 = AtomicU64::new(0);
+
+struct Gate {
+    what: String,
+    tid: u64,
+    skip: u64,
+    parked: bool,
+    open: bool,
+}
+
+static GATES: Mutex<Vec<Gate>> = Mutex::new(Vec::new());
+static GATES_CHANGED: Condvar = Condvar::new();
+
+/// Record an event (no gate).  Safe to call with the store mutex held.
+pub(crate) fn event(what: &'static str, a: u64, b: u64, c: u64) {
+    sync42::verif::event(what, a, b, c);
+}
+
+/// Record an event, then block while a gate is armed for this thread at this point.  Never call
+/// with the store mutex held.
+pub(crate) fn point(what: &'static str, a: u64, b: u64, c: u64) {
+    sync42::verif::event(what, a, b, c);
+    maybe_yield();
+    let tid = TID.with(|t| t.get());
+    let mut gates = GATES.lock().unwrap_or_else(|e| e.into_inner());
+    let Some(pos) = gates.iter().position(|g| g.tid == tid && g.what == what) else {
+        return;
+    };
+    if gates[pos].skip > 0 {
+        gates[pos].skip -= 1;
+        return;
+    }
+    gates[pos].parked = true;
+    GATES_CHANGED.notify_all();
+    loop {
+        let Some(pos) = gates.iter().position(|g| g.tid == tid && g.what == what) else {
+            return;
+        };
+        if gates[pos].open {
+            gates.remove(pos);
+            GATES_CHANGED.notify_all();
+            return;
+        }
+        gates = GATES_CHANGED
+            .wait(gates)
+            .unwrap_or_else(|e| e.into_inner());
+    }
+}
+
+/// Seeded perturbation of the schedule: with probability `per_mille`/1000 the calling thread yields
+/// (or sleeps a few microseconds) at a point.  The decision comes from a per-thread SplitMix64
+/// stream seeded by (seed, tid), so a run is a function of the seed and of the scheduler only.
+fn maybe_yield() {
+    let per_mille = YIELD_PER_MILLE.load(Ordering::Relaxed);
+    if per_mille == 0 {
+        return;
+    }
+    let r = YIELD_RNG.with(|s| {
+        let mut x = s.get();
+        if x == 0 {
+            x = YIELD_SEED
+                .load(Ordering::Relaxed)
+                .wrapping_mul(0x9E3779B97F4A7C15)
+                ^ TID.with(|t| t.get()).wrapping_add(1).wrapping_mul(0xBF58476D1CE4E5B9);
+        }
+        x = x.wrapping_add(0x9E3779B97F4A7C15);
+        s.set(x);
+        let mut z = x;
+        z = (z ^ (z >> 30)).wrapping_mul(0xBF58476D1CE4E5B9);
+        z = (z ^ (z >> 27)).wrapping_mul(0x94D049BB133111EB);
+        z ^ (z >> 31)
+    });
+    if r % 1000 < per_mille {
+        if (r >> 20) % 4 == 0 {
+            std::thread::sleep(Duration::from_micros((r >> 24) % 200));
+        } else {
+            std::thread::yield_now();
+        }
+    }
+}
+
+impl KeyValueStore {
+    /// Turn the seeded schedule perturbation on (per_mille > 0) or off.
+    pub fn verif_set_yield(seed: u64, per_mille: u64) {
+        YIELD_SEED.store(seed, Ordering::Relaxed);
+        YIELD_PER_MILLE.store(per_mille, Ordering::Relaxed);
+    }
+
+    /// Name the calling thread in recorded events and for gates.
+    pub fn verif_set_tid(tid: u64) {
+        TID.with(|t| t.set(tid));
+        sync42::verif::set_tid(tid);
+    }
+
+    /// Make thread `tid` block at its (`skip`+1)-th passage of point `what` until released.
+    pub fn verif_gate_arm(what: &str, tid: u64, skip: u64) {
+        let mut gates = GATES.lock().unwrap_or_else(|e| e.into_inner());
+        gates.push(Gate {
+            what: what.to_string(),
+            tid,
+            skip,
+            parked: false,
+            open: false,
+        });
+    }
+
+    /// Wait until thread `tid` is blocked at the gate `what`; false on timeout.
+    pub fn verif_gate_wait_parked(what: &str, tid: u64, timeout: Duration) -> bool {
+        let deadline = Instant::now() + timeout;
+        let mut gates = GATES.lock().unwrap_or_else(|e| e.into_inner());
+        loop {
+            if gates
+                .iter()
+                .any(|g| g.tid == tid && g.what == what && g.parked)
+            {
+                return true;
+            }
+            let now = Instant::now();
+            if now >= deadline {
+                return false;
+            }
+            gates = GATES_CHANGED
+                .wait_timeout(gates, deadline - now)
+                .unwrap_or_else(|e| e.into_inner())
+                .0;
+        }
+    }
+
+    /// Open the gate `what` of thread `tid` (armed or already blocking).
+    pub fn verif_gate_release(what: &str, tid: u64) {
+        let mut gates = GATES.lock().unwrap_or_else(|e| e.into_inner());
+        for g in gates.iter_mut() {
+            if g.tid == tid && g.what == what {
+                g.open = true;
+            }
+        }
+        GATES_CHANGED.notify_all();
+    }
+
+    /// Open every gate.
+    pub fn verif_gate_release_all() {
+        let mut gates = GATES.lock().unwrap_or_else(|e| e.into_inner());
+        for g in gates.iter_mut() {
+            g.open = true;
+        }
+        gates.retain(|g| g.parked);
+        GATES_CHANGED.notify_all();
+    }
+}
